@@ -12,6 +12,7 @@ DOC = {
                    'went through Path::quote (R3); group indices are attached before the parallel bridge, one item per input group, and the printer restores the order by emitting '
                    'only index == next, pushing every received item and incrementing next once per pop (R4); both summaries count one per command (R5).',
     'rules': {
+        'C11.M': __import__('fcverif.rules.common', fromlist=['MANDATORY_TEXT']).MANDATORY_TEXT,
         'C11.R1': 'run_dedupe: log_script and run_script receive the same dedupe(..) value',
         'C11.R2': 'execute vs to_shell_str per variant: Remove rm(file); SoftLink/HardLink mv(link,tmp) ln[-s](target,link) rm(tmp); RefLink mv cp--reflink rm; Move mv | cp+rm; execute and space_to_reclaim return the same field\'s length',
         'C11.R3': 'every path interpolated into a shell line derives from Path::quote',
@@ -88,6 +89,8 @@ def run(ctx):
     r23(ctx)
     r4(ctx)
     r5(ctx)
+    from .common import run_mandatory
+    run_mandatory(ctx, 'C11')
 
 
 def r1(ctx):
